@@ -1,86 +1,115 @@
 package main
 
-// A model of the struct -> JSON object mapping of encoding/json (field selection by struct tag,
-// omitempty, "-" and untagged embedded structs), computed from go/types on the program's own
-// struct types. It is what verifapi.JSONMembers returns in the executor; natively the same
-// function goes through the real encoding/json (Marshal, then Unmarshal into a map), so the
-// native replay of a counterexample is judged by the library itself.
+// A model of encoding/json's mapping between Go values and JSON documents, computed from
+// go/types on the program's own types. It stands in for the reflection code the executor cannot
+// run, and is what verifapi.JSONMembers / verifapi.JSONTransfer do under the executor; natively
+// the same functions go through the real encoding/json, so the native replay of a counterexample
+// and the self-test corpus are judged by the library itself.
 //
-// Covered: exported fields of basic type (string, bool, integers, floats), nested structs,
-// pointers to those, untagged embedded structs, tag options name / omitempty / "-".
-// Field types that marshal themselves (MarshalJSON / MarshalText) go through the converter
-// the harness passes. Anything else (slices, maps, interfaces, the ",string" option, name
-// clashes between embedded structs) ends the path as inconclusive.
+// Encoding (Marshal): exported struct fields selected and named by their tags (name, omitempty,
+// "-"), untagged embedded structs flattened, nested structs, pointers, strings, booleans,
+// integers and floats. Field types that marshal themselves (MarshalJSON / MarshalText) go
+// through the converter the harness passes.
+// Decoding (Unmarshal): into map[string]interface{} / interface{} (numbers become float64) and
+// into structs (exact member-name match first, then case-insensitive; unknown members ignored;
+// null leaves non-pointers alone; a member of the wrong JSON kind or an integer out of range is
+// a type error that leaves the field alone and makes Unmarshal return an error after the rest
+// was decoded; pointers are allocated on demand).
+// Anything else (slices, maps as sources, the ",string" option, name clashes, self-unmarshalling
+// targets, non-integral numbers into integers) ends the path as inconclusive.
+// The JSON text itself (escaping, number syntax) is not modelled: strings are carried as they
+// are, which is what the library does for valid UTF-8.
 
 import (
 	"go/types"
-
-	"golang.org/x/tools/go/ssa"
 	"reflect"
 	"strings"
+
+	"golang.org/x/tools/go/ssa"
 )
 
 var (
 	tyString  = types.Typ[types.String]
 	tyBool    = types.Typ[types.Bool]
 	tyFloat64 = types.Typ[types.Float64]
-	tyAnyMap  = types.NewMap(types.Typ[types.String], types.NewInterfaceType(nil, nil).Complete())
+	tyAny     = types.NewInterfaceType(nil, nil).Complete()
+	tyAnyMap  = types.NewMap(types.Typ[types.String], tyAny)
 )
 
-func (m *Machine) jsonMembers(v Value, conv Value) Value {
-	i, ok := v.(Iface)
-	if !ok || i.t == nil {
-		panic(pathEnd{"engine: unsupported " + "JSONMembers of a nil interface"})
-	}
-	t, val := i.t, i.v
-	for {
-		p, isPtr := t.Underlying().(*types.Pointer)
-		if !isPtr {
-			break
-		}
-		if _, isNil := val.(NilPtr); isNil {
-			panic(pathEnd{"engine: unsupported " + "JSONMembers of a nil pointer"})
-		}
-		t, val = p.Elem(), m.load(val)
-	}
-	st, ok := t.Underlying().(*types.Struct)
-	if !ok {
-		panic(pathEnd{"engine: unsupported " + "JSONMembers of a non-struct " + t.String()})
-	}
-	mo := &MapObj{kt: tyString, vt: tyAnyMap.Elem()}
-	m.jsonStruct(mo, st, val.(Struct), conv)
-	return mo
+const (
+	jNull = iota
+	jStr
+	jInt
+	jFloat
+	jBool
+	jObj
+)
+
+type jdoc struct {
+	kind   int
+	s      String
+	n      *Term // jInt: bit-vector; jFloat: float64; jBool: bool
+	signed bool
+	names  []string
+	vals   []*jdoc
 }
 
-func hasMethod(t types.Type, name string) bool {
-	ms := types.NewMethodSet(t)
-	for i := 0; i < ms.Len(); i++ {
-		if ms.At(i).Obj().Name() == name {
-			return true
+func jsonUnsupported(what string) { panic(pathEnd{"engine: unsupported by the JSON model: " + what}) }
+
+func hasMethod(t types.Type, names ...string) bool {
+	for _, tt := range []types.Type{t, types.NewPointer(t)} {
+		ms := types.NewMethodSet(tt)
+		for i := 0; i < ms.Len(); i++ {
+			for _, n := range names {
+				if ms.At(i).Obj().Name() == n {
+					return true
+				}
+			}
 		}
 	}
 	return false
 }
 
-func (m *Machine) jsonStruct(mo *MapObj, st *types.Struct, sv Struct, conv Value) {
+// valueMethod: Marshal of a non-addressable value only sees value-receiver methods
+func hasValueMethod(t types.Type, names ...string) bool {
+	ms := types.NewMethodSet(t)
+	for i := 0; i < ms.Len(); i++ {
+		for _, n := range names {
+			if ms.At(i).Obj().Name() == n {
+				return true
+			}
+		}
+	}
+	return false
+}
+
+type jfield struct {
+	name      string
+	idx       []int // path through embedded structs
+	typ       types.Type
+	omitempty bool
+}
+
+// jsonFields lists the fields encoding/json sees in a struct type, in order.
+func jsonFields(st *types.Struct, prefix []int, out *[]jfield) {
 	for k := 0; k < st.NumFields(); k++ {
 		f := st.Field(k)
 		tag, tagged := reflect.StructTag(st.Tag(k)).Lookup("json")
-		name, opts, _ := strings.Cut(tag, ",")
 		if tagged && tag == "-" {
 			continue
 		}
+		name, opts, _ := strings.Cut(tag, ",")
+		path := append(append([]int{}, prefix...), k)
 		if f.Anonymous() && name == "" {
 			ft := f.Type()
-			fv := sv[k]
 			if p, isPtr := ft.Underlying().(*types.Pointer); isPtr {
-				if _, isNil := fv.(NilPtr); isNil {
-					continue
-				}
-				ft, fv = p.Elem(), m.load(fv)
+				ft = p.Elem()
 			}
-			if est, isStruct := ft.Underlying().(*types.Struct); isStruct && !hasMethod(ft, "MarshalJSON") && !hasMethod(ft, "MarshalText") {
-				m.jsonStruct(mo, est, fv.(Struct), conv)
+			if est, isStruct := ft.Underlying().(*types.Struct); isStruct && !hasMethod(ft, "MarshalJSON", "MarshalText", "UnmarshalJSON", "UnmarshalText") {
+				if _, isPtr := f.Type().Underlying().(*types.Pointer); isPtr {
+					jsonUnsupported("embedded pointer to struct " + f.Name())
+				}
+				jsonFields(est, path, out)
 				continue
 			}
 		}
@@ -90,71 +119,374 @@ func (m *Machine) jsonStruct(mo *MapObj, st *types.Struct, sv Struct, conv Value
 		if name == "" {
 			name = f.Name()
 		}
-		omitempty := false
+		jf := jfield{name: name, idx: path, typ: f.Type()}
 		for _, o := range strings.Split(opts, ",") {
 			switch o {
-			case "":
+			case "", "omitzero": // omitzero is ignored by this Go release
 			case "omitempty":
-				omitempty = true
-			default: // "string", and "omitzero" which this Go release ignores
-				if o != "omitzero" {
-					panic(pathEnd{"engine: unsupported " + "JSONMembers: tag option " + o})
-				}
+				jf.omitempty = true
+			default:
+				jsonUnsupported("tag option " + o + " on " + f.Name())
 			}
 		}
-		jv, empty := m.jsonValue(f.Type(), sv[k], conv)
-		if omitempty && empty != False {
-			if empty == True || m.branch(empty) {
-				continue
+		for _, o := range *out {
+			if o.name == jf.name {
+				jsonUnsupported("two fields named " + jf.name)
 			}
 		}
-		for _, kk := range mo.keys {
-			if *kk.(String).lit == name {
-				panic(pathEnd{"engine: unsupported " + "JSONMembers: two fields named " + name})
-			}
-		}
-		mo.keys = append(mo.keys, strLit(name))
-		mo.vals = append(mo.vals, jv)
+		*out = append(*out, jf)
 	}
 }
 
-// jsonValue returns the value encoding/json's decoder would put into a map[string]interface{}
-// for this field after a Marshal/Unmarshal trip, and the condition under which omitempty
-// drops the field.
-func (m *Machine) jsonValue(t types.Type, v Value, conv Value) (Value, *Term) {
-	if hasMethod(t, "MarshalJSON") || hasMethod(t, "MarshalText") {
-		if _, none := conv.(NilPtr); none {
-			panic(pathEnd{"engine: unsupported " + "JSONMembers: " + t.String() + " marshals itself and no converter was given"})
-		}
-		r := m.callValue(conv, &ssa.CallCommon{}, []Value{Iface{t: t, v: v}})
-		_, empty := m.jsonValue(t.Underlying(), v, NilPtr{})
-		return r, empty
+func fieldValue(sv Struct, idx []int) Value {
+	v := Value(sv)
+	for _, i := range idx {
+		v = v.(Struct)[i]
 	}
+	return v
+}
+
+func fieldSlot(sv Struct, idx []int) *Value {
+	cur := sv
+	for n, i := range idx {
+		if n == len(idx)-1 {
+			return &cur[i]
+		}
+		cur = cur[i].(Struct)
+	}
+	return nil
+}
+
+// ---------- encoding ----------
+
+// jsonEncode returns the document for v and the condition under which omitempty drops it.
+func (m *Machine) jsonEncode(t types.Type, v Value, conv Value) (*jdoc, *Term) {
+	if _, isIface := t.Underlying().(*types.Interface); isIface {
+		i := v.(Iface)
+		if i.t == nil {
+			return &jdoc{kind: jNull}, True
+		}
+		d, _ := m.jsonEncode(i.t, i.v, conv)
+		return d, False
+	}
+	if hasValueMethod(t, "MarshalJSON", "MarshalText") {
+		if _, none := conv.(NilPtr); none {
+			jsonUnsupported(t.String() + " marshals itself and the harness gave no converter")
+		}
+		r := m.callValue(conv, &ssa.CallCommon{}, []Value{Iface{t: t, v: v}}).(Iface)
+		d, _ := m.jsonEncode(tyAny, r, NilPtr{})
+		_, empty := m.jsonEncodePlain(t.Underlying(), v, NilPtr{})
+		return d, empty
+	}
+	return m.jsonEncodePlain(t, v, conv)
+}
+
+func (m *Machine) jsonEncodePlain(t types.Type, v Value, conv Value) (*jdoc, *Term) {
 	switch u := t.Underlying().(type) {
 	case *types.Basic:
 		switch {
 		case u.Kind() == types.String:
 			s := v.(String)
-			return Iface{t: tyString, v: s}, Eq(s.len, BV(64, 0))
+			return &jdoc{kind: jStr, s: s}, Eq(s.len, BV(64, 0))
 		case u.Kind() == types.Bool:
-			return Iface{t: tyBool, v: v}, Not(v.(*Term))
+			return &jdoc{kind: jBool, n: v.(*Term)}, Not(v.(*Term))
 		case isFloat(t):
-			return Iface{t: tyFloat64, v: v}, FPCmp("fp.eq", v.(*Term), FPConst(0))
+			return &jdoc{kind: jFloat, n: v.(*Term)}, FPCmp("fp.eq", v.(*Term), FPConst(0))
 		case width(t) > 0:
 			x := v.(*Term)
-			return Iface{t: tyFloat64, v: FPFromInt(x, isSigned(t))}, Eq(x, BV(width(t), 0))
+			return &jdoc{kind: jInt, n: x, signed: isSigned(t)}, Eq(x, BV(width(t), 0))
 		}
 	case *types.Struct:
-		mo := &MapObj{kt: tyString, vt: tyAnyMap.Elem()}
-		m.jsonStruct(mo, u, v.(Struct), conv)
-		return Iface{t: tyAnyMap, v: mo}, False
+		var fs []jfield
+		jsonFields(u, nil, &fs)
+		d := &jdoc{kind: jObj}
+		for _, f := range fs {
+			fd, empty := m.jsonEncode(f.typ, fieldValue(v.(Struct), f.idx), conv)
+			if f.omitempty && empty != False {
+				if empty == True || m.branch(empty) {
+					continue
+				}
+			}
+			d.names = append(d.names, f.name)
+			d.vals = append(d.vals, fd)
+		}
+		return d, False
 	case *types.Pointer:
 		if _, isNil := v.(NilPtr); isNil {
-			return Iface{}, True
+			return &jdoc{kind: jNull}, True
 		}
-		r, _ := m.jsonValue(u.Elem(), m.load(v), conv)
-		return r, False
+		d, _ := m.jsonEncode(u.Elem(), m.load(v), conv)
+		return d, False
+	case *types.Map:
+		if mo, ok := v.(*MapObj); ok && u.Key().Underlying() == tyString {
+			d := &jdoc{kind: jObj}
+			for i, k := range mo.keys {
+				ks := k.(String)
+				if ks.lit == nil {
+					jsonUnsupported("map with a symbolic key")
+				}
+				vd, _ := m.jsonEncode(u.Elem(), mo.vals[i], conv)
+				d.names = append(d.names, *ks.lit)
+				d.vals = append(d.vals, vd)
+			}
+			return d, Bool(len(mo.keys) == 0)
+		}
+		if _, isNil := v.(NilPtr); isNil {
+			return &jdoc{kind: jNull}, True
+		}
 	}
-	panic(pathEnd{"engine: unsupported " + "JSONMembers: field of type " + t.String()})
-	return nil, False
+	jsonUnsupported("marshalling a " + t.String())
+	return nil, nil
+}
+
+// ---------- decoding ----------
+
+// jsonGeneric is what Unmarshal stores into an interface{}.
+func (m *Machine) jsonGeneric(d *jdoc) Value {
+	switch d.kind {
+	case jNull:
+		return Iface{}
+	case jStr:
+		return Iface{t: tyString, v: d.s}
+	case jBool:
+		return Iface{t: tyBool, v: d.n}
+	case jFloat:
+		return Iface{t: tyFloat64, v: d.n}
+	case jInt:
+		return Iface{t: tyFloat64, v: FPFromInt(d.n, d.signed)}
+	}
+	mo := &MapObj{kt: tyString, vt: tyAny}
+	for i, n := range d.names {
+		mo.keys = append(mo.keys, strLit(n))
+		mo.vals = append(mo.vals, m.jsonGeneric(d.vals[i]))
+	}
+	return Iface{t: tyAnyMap, v: mo}
+}
+
+// jsonDecode stores d into the slot of type t; it returns false on a type error (the slot is
+// then left as it was, like the library does).
+func (m *Machine) jsonDecode(d *jdoc, t types.Type, slot *Value) bool {
+	if hasMethod(t, "UnmarshalJSON", "UnmarshalText") {
+		jsonUnsupported(t.String() + " unmarshals itself")
+	}
+	switch u := t.Underlying().(type) {
+	case *types.Interface:
+		if u.NumMethods() != 0 {
+			jsonUnsupported("unmarshalling into a non-empty interface")
+		}
+		*slot = m.jsonGeneric(d)
+		return true
+	case *types.Pointer:
+		if d.kind == jNull {
+			*slot = NilPtr{}
+			return true
+		}
+		if _, isNil := (*slot).(NilPtr); isNil {
+			nv := m.zero(u.Elem())
+			ok := m.jsonDecode(d, u.Elem(), &nv)
+			if ok {
+				*slot = SlotPtr{&nv}
+			}
+			return ok
+		}
+		return m.jsonDecode(d, u.Elem(), (*slot).(SlotPtr).p)
+	case *types.Map:
+		if d.kind == jNull {
+			*slot = NilPtr{}
+			return true
+		}
+		if d.kind != jObj {
+			return false
+		}
+		if u.Key().Underlying() != tyString {
+			jsonUnsupported("unmarshalling into " + t.String())
+		}
+		mo, ok := (*slot).(*MapObj)
+		if !ok {
+			mo = &MapObj{kt: u.Key(), vt: u.Elem()}
+		}
+		good := true
+		for i, n := range d.names {
+			ev := m.zero(u.Elem())
+			if !m.jsonDecode(d.vals[i], u.Elem(), &ev) {
+				good = false
+				continue
+			}
+			if j := m.mapFind(mo, strLit(n)); j >= 0 {
+				mo.vals[j] = ev
+			} else {
+				mo.keys = append(mo.keys, strLit(n))
+				mo.vals = append(mo.vals, ev)
+			}
+		}
+		*slot = mo
+		return good
+	}
+	if d.kind == jNull {
+		return true // null into a non-pointer: no effect, no error
+	}
+	switch u := t.Underlying().(type) {
+	case *types.Basic:
+		switch {
+		case u.Kind() == types.String:
+			if d.kind != jStr {
+				return false
+			}
+			*slot = d.s
+			return true
+		case u.Kind() == types.Bool:
+			if d.kind != jBool {
+				return false
+			}
+			*slot = d.n
+			return true
+		case isFloat(t):
+			switch d.kind {
+			case jFloat:
+				*slot = d.n
+			case jInt:
+				*slot = FPFromInt(d.n, d.signed)
+			default:
+				return false
+			}
+			if width(t) != 64 && !isFloat64(t) {
+				jsonUnsupported("unmarshalling into float32")
+			}
+			return true
+		case width(t) > 0:
+			if d.kind == jFloat {
+				jsonUnsupported("a float member unmarshalled into an integer")
+			}
+			if d.kind != jInt {
+				return false
+			}
+			conv, fits := intFit(d.n, d.signed, width(t), isSigned(t))
+			if fits != True {
+				if fits == False || !m.branch(fits) {
+					return false
+				}
+			}
+			*slot = conv
+			return true
+		}
+	case *types.Struct:
+		if d.kind != jObj {
+			return false
+		}
+		var fs []jfield
+		jsonFields(u, nil, &fs)
+		sv := (*slot).(Struct)
+		good := true
+		for i, n := range d.names {
+			k := -1
+			for j, f := range fs {
+				if f.name == n {
+					k = j
+					break
+				}
+			}
+			if k < 0 {
+				for j, f := range fs {
+					if strings.EqualFold(f.name, n) {
+						k = j
+						break
+					}
+				}
+			}
+			if k < 0 {
+				continue
+			}
+			if !m.jsonDecode(d.vals[i], fs[k].typ, fieldSlot(sv, fs[k].idx)) {
+				good = false
+			}
+		}
+		return good
+	}
+	jsonUnsupported("unmarshalling into a " + t.String())
+	return false
+}
+
+func isFloat64(t types.Type) bool {
+	b, ok := t.Underlying().(*types.Basic)
+	return ok && b.Kind() == types.Float64
+}
+
+// intFit converts integer x (signedness s) to width w / signedness ts and tells whether the
+// value is representable there (all widths <= 64).
+func intFit(x *Term, s bool, w int, ts bool) (*Term, *Term) {
+	var conv *Term
+	switch {
+	case x.w == w:
+		conv = x
+	case x.w > w:
+		conv = Extract(w-1, 0, x)
+	case s:
+		conv = SExt(x, w)
+	default:
+		conv = ZExt(x, w)
+	}
+	x64 := x
+	if x.w < 64 {
+		if s {
+			x64 = SExt(x, 64)
+		} else {
+			x64 = ZExt(x, 64)
+		}
+	}
+	srcU64 := !s && x.w == 64 // may exceed the int64 range
+	if !ts && w == 64 {
+		if s {
+			return conv, Cmp("bvsle", BV(64, 0), x64)
+		}
+		return conv, True
+	}
+	var lo, hi uint64 // as int64 bit patterns
+	if ts {
+		lo = ^uint64(0) << uint(w-1)
+		hi = 1<<uint(w-1) - 1
+	} else {
+		lo = 0
+		hi = 1<<uint(w) - 1
+	}
+	if srcU64 {
+		return conv, Cmp("bvule", x64, BV(64, hi))
+	}
+	return conv, And(Cmp("bvsle", BV(64, lo), x64), Cmp("bvsle", x64, BV(64, hi)))
+}
+
+// ---------- the two entry points ----------
+
+func (m *Machine) jsonDocOf(v Value, conv Value) *jdoc {
+	i, ok := v.(Iface)
+	if !ok || i.t == nil {
+		return &jdoc{kind: jNull}
+	}
+	d, _ := m.jsonEncode(i.t, i.v, conv)
+	return d
+}
+
+func (m *Machine) jsonMembers(v Value, conv Value) Value {
+	d := m.jsonDocOf(v, conv)
+	if d.kind != jObj {
+		jsonUnsupported("JSONMembers of a value that is not a JSON object")
+	}
+	return m.jsonGeneric(d).(Iface).v
+}
+
+// jsonTransfer: Unmarshal(Marshal(src), dst); the result is "no type error".
+func (m *Machine) jsonTransfer(src, dst Value, conv Value) Value {
+	d := m.jsonDocOf(src, conv)
+	di, ok := dst.(Iface)
+	if !ok || di.t == nil {
+		return False
+	}
+	p, isPtr := di.t.Underlying().(*types.Pointer)
+	if !isPtr {
+		return False
+	}
+	sp, ok := di.v.(SlotPtr)
+	if !ok {
+		return False // nil pointer: InvalidUnmarshalError
+	}
+	return Bool(m.jsonDecode(d, p.Elem(), sp.p))
 }
